@@ -149,17 +149,16 @@ Section plain_run.
 End plain_run.
 
 (* ---------------------------------------------------------------- whole runs from the initial state *)
-Lemma flat_map_recs_history thr gd : forall k d, positive k -> d + height k <= gd -> thr = 0 ->
+Lemma flat_map_recs_history thr gd : forall k d, d + height k <= gd -> thr = 0 ->
   recs thr gd d k = history d k.
 Proof.
-  induction k as [a t0 t1 kids IH] using call_ind'. intros d Hp Hh ->.
+  induction k as [a t0 t1 kids IH] using call_ind'. intros d Hh ->.
   cbn [recs history]. cbn [height] in Hh. fold (heights kids) in Hh.
   assert (E : (gd <=? d) = false) by (apply N.leb_gt; lia). rewrite E.
-  destruct Hp as [Hlt Hk].
   assert (E2 : (0 <=? t1 - t0) = true) by (apply N.leb_le; lia). rewrite E2. cbn [orb].
   f_equal. f_equal.
-  revert Hk Hh. induction IH as [|k r Hk' _ IHr]; intros Hk Hh; cbn [flat_map]; [reflexivity|].
-  destruct Hk as [Pk Pr]. cbn [heights fold_right] in Hh. fold (heights r) in Hh.
+  revert Hh. induction IH as [|k r Hk' _ IHr]; intros Hh; cbn [flat_map]; [reflexivity|].
+  cbn [heights fold_right] in Hh. fold (heights r) in Hh.
   rewrite Hk' by (try assumption; try reflexivity; lia). rewrite IHr by (try assumption; lia). reflexivity.
 Qed.
 
@@ -177,13 +176,13 @@ Proof.
     destruct (is_nil _); reflexivity.
 Qed.
 
-Theorem history_recorded gd ms sh : forall f, all_timed f -> all_positive f ->
+Theorem history_recorded gd ms sh : forall f, all_timed f ->
   heights f <= ms -> heights f <= gd ->
   out (fst (exec (plain 0 gd ms sh) (flat_forest f) (init, []))) = flat_map (history 0) f.
 Proof.
-  intros f HT HP Hm Hg. rewrite run_forest by assumption.
+  intros f HT Hm Hg. rewrite run_forest by assumption.
   induction f as [|k r IH]; [reflexivity|]. cbn [flat_map].
-  destruct HT as [Tk Tr]. destruct HP as [Pk Pr]. cbn [heights fold_right] in Hm, Hg. fold (heights r) in Hm, Hg.
+  destruct HT as [Tk Tr]. cbn [heights fold_right] in Hm, Hg. fold (heights r) in Hm, Hg.
   rewrite flat_map_recs_history by (try assumption; try reflexivity; lia).
   rewrite IH by (try assumption; lia). reflexivity.
 Qed.
